@@ -98,12 +98,16 @@ pub fn render(s: &TypeSpec) -> Option<Rendered> {
     } else {
         sentinel
     };
-    o.push_str("pub fn run(o: &mut Out) {\n    let n = vals().len();\n    for i in 0..n {\n        let mut x = vals().swap_remove(i);\n");
-    o.push_str(&format!("        {{ let r: &{target} = &*x; let p = r as *const {target} as *const u8; let (k, q) = addr_deref(&x);\n"));
+    o.push_str("pub fn run(o: &mut Out) {\n    let n = vals().len();\n");
+    o.push_str(&format!("    o.check(::core::any::TypeId::of::<<{ty} as ::core::ops::Deref>::Target>() == ::core::any::TypeId::of::<{target}>(), || \"Deref::Target is not the designated field's type with its references stripped ({target})\".to_string());\n"));
+    o.push_str("    for i in 0..n {\n        let mut x = vals().swap_remove(i);\n");
+    // no type annotation on the reference: `let r: &Target = &*x` would let a deref coercion repair a wrong `Target`
+    o.push_str(&format!("        {{ let r: &<{ty} as ::core::ops::Deref>::Target = ::core::ops::Deref::deref(&x); let p = r as *const <{ty} as ::core::ops::Deref>::Target as *const u8; let (k, q) = addr_deref(&x);\n"));
     o.push_str("          o.check(p == q, || format!(\"value {i}: &*x does not point at the designated field {k}\")); o.tally(\"derefs\", 1); }\n");
     if has_mut {
         o.push_str("        let before = fp(&x);\n        let (k, q) = addr_deref_mut(&x);\n");
-        o.push_str(&format!("        let p = {{ let m: &mut {target} = &mut *x; let p = m as *mut {target} as *const u8; *m = {sentinel}; p }};\n"));
+        // (no annotation on `m`, see above; a wrong Target makes the assignment ill-typed or moves the address)
+        o.push_str(&format!("        let p = {{ let m = ::core::ops::DerefMut::deref_mut(&mut x); let p = m as *mut <{ty} as ::core::ops::Deref>::Target as *const u8; *m = {sentinel}; p }};\n"));
         o.push_str("        o.check(p == q, || format!(\"value {i}: &mut *x does not point at the field marked DerefMut ({k})\"));\n");
         o.push_str("        let after = fp(&x);\n        o.check(after.0 == before.0, || format!(\"value {i}: the variant changed\"));\n");
         o.push_str(&format!("        let sk = Key::key(&{sentinel});\n"));
